@@ -21,6 +21,7 @@ from .util import Violation, Foreign, mix, cjson, h64
 VERIF = os.path.dirname(os.path.dirname(os.path.abspath(__file__)))
 KNOWN_PATH = os.path.join(VERIF, "known_findings.json")
 WALL_CAP = {"quick": 150.0, "thorough": 1500.0}
+SET_CAP = 2_000_000  # distinct-state / distinct-case sets stop growing here (reported as a lower bound)
 RUN_TIMEOUT = 60  # seconds per single run before the harness gives up (exit 2)
 
 
@@ -130,8 +131,10 @@ def _merge(total, part):
     for key in ("counts", "probes", "faults", "known_hits", "foreign"):
         for k, v in part[key].items():
             total[key][k] = total[key].get(k, 0) + v
-    total["states"] |= part["states"]
-    total["nontrivial"] |= part["nontrivial"]
+    if len(total["states"]) < SET_CAP:
+        total["states"] |= part["states"]
+    if len(total["nontrivial"]) < SET_CAP:
+        total["nontrivial"] |= part["nontrivial"]
     total["failures"] += part["failures"]
     total["digests"].update(part["digests"])
     total["sim_time"] += part["sim_time"]
@@ -452,6 +455,7 @@ def write_evidence(mod, pid, tier, verif_seed, total, violations, wall, harness_
         "fault_free_runs": total["fault_free"],
         "faulty_runs": total["faulty"],
         "distinct_states": len(total["states"]),
+        "distinct_counts_are_lower_bounds": len(total["states"]) >= SET_CAP or len(total["nontrivial"]) >= SET_CAP,
         "distinct_states_measure": getattr(mod, "STATE_MEASURE", "distinct (instance hash, next-op index vector, machine-free vector, job-free vector) tuples"),
         "probes": total["probes"],
         "aborted_foreign": total["foreign"],
